@@ -147,14 +147,14 @@ class ScriptedComponent:
         self.h = h
         self.idx = idx
         self.outcome = outcome
-        self.gate = None
         self.seen = None
 
     async def process_request(self, request_url, client_ip, client_cert_fingerprint=None):
         self.h.mw_started.append(self.idx)
         self.seen = (request_url, client_ip, client_cert_fingerprint)
-        self.gate = Gate(self.h.loop)
-        await self.gate.fut
+        gate = Gate(self.h.loop)
+        self.h.mw_gates.append(gate)
+        await gate.fut
         self.h.calls["mw"] += 1
         o = self.outcome
         if o == "allow":
@@ -179,8 +179,9 @@ class SpyUpload:
     async def handle_upload(self, request):
         self.h.calls["u"] += 1
         self.h.upload_requests.append(request)
-        self.h.hgate = Gate(self.h.loop)
-        await self.h.hgate.fut
+        gate = Gate(self.h.loop)
+        self.h.h_gates.append(gate)
+        await gate.fut
         return handler_value(self.h.cfg["h"]["out"], self.h.rnd)
 
 
@@ -231,7 +232,8 @@ class ConnHarness:
         self.mw_started = []
         self.requests = []
         self.upload_requests = []
-        self.hgate = None
+        self.mw_gates = []         # gates of chain components currently consulted (oldest first)
+        self.h_gates = []          # gates of handler / upload-handler invocations in flight
         self.stream, self.line = concretise(cfg["s"], self.rnd)
         self.delivered = 0
         self.components = [ScriptedComponent(self, i, o) for i, o in enumerate(cfg["mw"])]
@@ -254,8 +256,9 @@ class ConnHarness:
         return self._ahandler()
 
     async def _ahandler(self):
-        self.hgate = Gate(self.loop)
-        await self.hgate.fut
+        gate = Gate(self.loop)
+        self.h_gates.append(gate)
+        await gate.fut
         return handler_value(self.cfg["h"]["out"], self.rnd)
 
     # ---- the specification's actions --------------------------------------------------------------
@@ -276,15 +279,16 @@ class ConnHarness:
             if e:
                 self.escaped.append(e)
         elif act == "MwStep":
-            started = [c for c in self.components if c.gate is not None and not c.gate.fut.done()]
-            if not started:
+            waiting = self.mw_waiting()
+            if not waiting:
                 raise RuntimeError("MwStep: no component is waiting")
-            started[0].gate.open()
+            waiting[0].open()
             self.loop.run_idle()
         elif act == "HandlerComplete":
-            if self.hgate is None or self.hgate.fut.done():
+            waiting = self.h_waiting()
+            if not waiting:
                 raise RuntimeError("HandlerComplete: no handler is waiting")
-            self.hgate.open()
+            waiting[0].open()
             self.loop.run_idle()
         elif act == "TimerFire":
             nt = self.loop.next_timer()
@@ -304,6 +308,28 @@ class ConnHarness:
         else:
             raise ValueError(act)
         return self.project()
+
+    def mw_waiting(self):
+        return [g for g in self.mw_gates if not g.fut.done()]
+
+    def h_waiting(self):
+        return [g for g in self.h_gates if not g.fut.done()]
+
+    def drain(self):
+        """Let every task that is still waiting finish and the loop deliver connection_lost: a legal
+        continuation of any execution (used to look for a property violation after a mismatch).
+        Returns the extra steps as (action, observation)."""
+        steps = []
+        for _ in range(64):
+            if self.mw_waiting():
+                steps.append(("MwStep", self.do("MwStep")))
+            elif self.h_waiting() and self.cfg["h"]["out"] != "never":
+                steps.append(("HandlerComplete", self.do("HandlerComplete")))
+            elif self.tr.pending_lost is not None and not self.tr.lost:
+                steps.append(("ConnectionLost", self.do("ConnectionLost")))
+            else:
+                break
+        return steps
 
     def _pump_feed(self, chunk):
         try:
